@@ -5,7 +5,7 @@ CONSTANTS
   MaxPool = 1
   MaxSize = 64
   Raise = FALSE
-  Devs = {"UnnamedNoAlign", "UnionUnnamedIgnored", "PackedNoFinalAlign"}
+  Devs = {}
   Widths = {}
   Emit = FALSE
   CharSigned = TRUE
@@ -15,5 +15,6 @@ CONSTANTS
   McSel = "full"
   CheckSim = FALSE
   MaxParams = 12
+  AbiDevs = {}
   MaxExtra = 4
 CHECK_DEADLOCK FALSE
